@@ -11,22 +11,22 @@ import (
 
 // CaseSpec identifies one symbolic execution: harness × structural parameters.
 type CaseSpec struct {
-	Pkg     string `json:"pkg"`
-	Harness string `json:"harness"`
-	Name    string `json:"name,omitempty"` // optional leading string parameter (table entry)
-	Params  []int  `json:"params"`
-	FP      bool   `json:"fp,omitempty"`
-	Cert    bool   `json:"cert,omitempty"`     // issue the partial-order certificate
-	TrackMem bool  `json:"track_mem,omitempty"` // include memory cells in the certificate
-	MaxPaths int   `json:"max_paths,omitempty"`
-	MaxSteps int   `json:"max_steps,omitempty"`
-	NoMerge  bool  `json:"no_merge,omitempty"`
-	Tag      string `json:"tag,omitempty"`
-	Weight   int    `json:"-"` // scheduling hint (heavier cases first)
-	WantModel bool  `json:"-"` // keep a model of the first path (translator validation)
-	MaxWallS  int   `json:"-"` // wall-clock budget for the whole case (seconds)
-	Sched     int   `json:"sched,omitempty"` // scheduling policy of the executor (0 lowest id first, 1 highest id first, 2 round robin)
-	SkipReach bool  `json:"-"` // do not spend a (possibly nonlinear) query on the vacuity guard
+	Pkg       string `json:"pkg"`
+	Harness   string `json:"harness"`
+	Name      string `json:"name,omitempty"` // optional leading string parameter (table entry)
+	Params    []int  `json:"params"`
+	FP        bool   `json:"fp,omitempty"`
+	Cert      bool   `json:"cert,omitempty"`      // issue the partial-order certificate
+	TrackMem  bool   `json:"track_mem,omitempty"` // include memory cells in the certificate
+	MaxPaths  int    `json:"max_paths,omitempty"`
+	MaxSteps  int    `json:"max_steps,omitempty"`
+	NoMerge   bool   `json:"no_merge,omitempty"`
+	Tag       string `json:"tag,omitempty"`
+	Weight    int    `json:"-"`               // scheduling hint (heavier cases first)
+	WantModel bool   `json:"-"`               // keep a model of the first path (translator validation)
+	MaxWallS  int    `json:"-"`               // wall-clock budget for the whole case (seconds)
+	Sched     int    `json:"sched,omitempty"` // scheduling policy of the executor (0 lowest id first, 1 highest id first, 2 round robin)
+	SkipReach bool   `json:"-"`               // do not spend a (possibly nonlinear) query on the vacuity guard
 }
 
 func (c CaseSpec) ID() string {
@@ -53,41 +53,41 @@ type AssertAgg struct {
 
 // Violation found by a case (before native replay).
 type Violation struct {
-	Case    CaseSpec          `json:"case"`
-	Kind    string            `json:"kind"` // assert | deadlock | leak | panic | race | frozen-write
-	Label   string            `json:"label"`
-	Detail  string            `json:"detail,omitempty"`
-	Model   map[string]string `json:"model"`
-	Known   string            `json:"known,omitempty"`
-	Trace   []bool            `json:"trace,omitempty"`
+	Case   CaseSpec          `json:"case"`
+	Kind   string            `json:"kind"` // assert | deadlock | leak | panic | race | frozen-write
+	Label  string            `json:"label"`
+	Detail string            `json:"detail,omitempty"`
+	Model  map[string]string `json:"model"`
+	Known  string            `json:"known,omitempty"`
+	Trace  []bool            `json:"trace,omitempty"`
 }
 
 type CaseResult struct {
-	Spec       CaseSpec
-	Paths      int
-	Steps      int
-	Outcomes   map[Outcome]int
-	Asserts    map[string]*AssertAgg
-	ReachSat   map[string]int
-	ReachSeen  map[string]int
-	Certs      int
-	CertIssued int
+	Spec                             CaseSpec
+	Paths                            int
+	Steps                            int
+	Outcomes                         map[Outcome]int
+	Asserts                          map[string]*AssertAgg
+	ReachSat                         map[string]int
+	ReachSeen                        map[string]int
+	Certs                            int
+	CertIssued                       int
 	CertEvents, CertEdges, CertPairs int
-	CertNotes  []string
-	Incomplete string
-	Violations []Violation
-	KnownHeld  map[string]int // known-finding asserts that held on a path (no longer failing there)
-	Funcs      map[string]bool
-	Stubs      map[string]bool
-	Merges, MergeAborts int
-	SideConds  int
-	Stats      SolverStats
-	Wall       time.Duration
-	Info       map[string]string
-	Nondet     int
-	SampleTerm string
-	certStats   SolverStats
-	SampleModel map[string]string // a model of the first completed path's condition (inside the replay ranges)
+	CertNotes                        []string
+	Incomplete                       string
+	Violations                       []Violation
+	KnownHeld                        map[string]int // known-finding asserts that held on a path (no longer failing there)
+	Funcs                            map[string]bool
+	Stubs                            map[string]bool
+	Merges, MergeAborts              int
+	SideConds                        int
+	Stats                            SolverStats
+	Wall                             time.Duration
+	Info                             map[string]string
+	Nondet                           int
+	SampleTerm                       string
+	certStats                        SolverStats
+	SampleModel                      map[string]string // a model of the first completed path's condition (inside the replay ranges)
 }
 
 // RunCase explores all paths of a case.
@@ -206,7 +206,7 @@ func RunCase(p *Program, sol *Solver, spec CaseSpec) *CaseResult {
 			case "unknown":
 				agg.Unknown++
 				res.Incomplete = "assertion " + a.Label + ": solver unknown"
-			case "vacuous":
+			case "vacuous", "exempt":
 				agg.Trivial++
 			case "violated":
 				agg.Violated++
